@@ -87,6 +87,31 @@ def docPathB : St → List St → Bool
     (e != cur) && (e != .none) && (cur != .none || e == .starting) && (cur != .permanent || e == .stopping) &&
     (cur != .fatal) && (cur != .stopped) && docPathB e es
 
+/-! ## the service's automatic reports around a component's life (graph.go `StartAll` / `ShutdownAll`,
+extensions.go `Start` / `Shutdown`) interleaved with the component's own reports -/
+
+structure Life where
+  started : Bool            -- `Start` was reached (an earlier component's failure aborts start-up)
+  duringStart : List St     -- reported by the component from inside `Start`
+  failStart : Bool
+  allStarted : Bool         -- start-up of the whole graph succeeded (then the component runs)
+  running : List St         -- reported by the component while running
+  duringStop : List St      -- reported from inside `Shutdown` (only possible if it was started: it needs the host)
+  failStop : Bool
+deriving Repr
+
+/-- the reports the per-instance FSM receives, in order -/
+def Life.reports (l : Life) : List Report :=
+  (if l.started then
+    [Report.status .starting] ++ l.duringStart.map Report.status ++
+      (if l.failStart then [Report.status .permanent] else [Report.okIfStarting]) ++
+      (if l.allStarted then l.running.map Report.status else [])
+   else []) ++
+  [Report.status .stopping] ++ (if l.started then l.duringStop.map Report.status else []) ++
+  [if l.failStop then Report.status .permanent else Report.status .stopped]
+
+def Life.events (l : Life) : List St := run .none l.reports
+
 /-! ## shared component host wrapper -/
 
 /-- `hostWrapper`: `sources` are per-instance FSM states (the status reporters of the hosts the
